@@ -257,7 +257,7 @@ def tkFromJson (j : Json) : Except String Syntax.Tk := do
   let k ← j.getObjValAs? String "k"
   let s := (j.getObjValAs? String "s").toOption.getD ""
   match k with
-  | "str" => pure (.str s) | "bt" => pure (.bt s) | "ident" => pure (.ident s)
+  | "str" => pure (.str s) | "strAdj" => pure (.strAdj s) | "bt" => pure (.bt s) | "ident" => pure (.ident s)
   | "plus" => pure .plus | "slash" => pure .slash | "andand" => pure .andand | "barbar" => pure .barbar
   | "lparen" => pure .lparen | "rparen" => pure .rparen | "comma" => pure .comma
   | "lbrace" => pure .lbrace | "rbrace" => pure .rbrace
@@ -267,6 +267,7 @@ def tkFromJson (j : Json) : Except String Syntax.Tk := do
 
 def tkToJson : Syntax.Tk → Json
   | .str s => Json.mkObj [("k", "str"), ("s", s)]
+  | .strAdj s => Json.mkObj [("k", "strAdj"), ("s", s)]
   | .bt s => Json.mkObj [("k", "bt"), ("s", s)]
   | .ident s => Json.mkObj [("k", "ident"), ("s", s)]
   | .plus => Json.mkObj [("k", "plus")] | .slash => Json.mkObj [("k", "slash")]
@@ -283,7 +284,11 @@ def opStr : CondOp → String
 
 /-- strip the delimiters of a plain one-line literal (the generator of the correspondence check only
 uses `'…'` and one-tick backticks) -/
-def inner (lexeme : String) : String := String.ofList ((lexeme.toList.drop 1).dropLast)
+def inner (lexeme : String) : String :=
+  let cs := match lexeme.toList with
+    | 'x' :: cs => cs      -- a shell-expanded literal: the generator uses texts that expand to themselves
+    | cs => cs
+  String.ofList ((cs.drop 1).dropLast)
 
 mutual
 /-- the JSON the dump prints for an expression (groups are transparent there) -/
